@@ -194,6 +194,35 @@ func craftedInputs() []epInput {
 		add("bmff-exif-item-no-marker-at-window-end", f)
 	}
 	{
+		// an inner box that cannot be closed (it claims more than its parents hold) followed by the boxes that locate an Exif
+		// item: whether the loop stops there must not depend on the log level (C15). Variant 1: the box is a reference box
+		// inside an overstated iref; variant 2: a free box directly inside meta; variant 3: inside moov before the Canon uuid.
+		tiffB := []byte{'I', 'I', 42, 0, 8, 0, 0, 0, 1, 0, 0x0f, 0x01, 2, 0, 6, 0, 0, 0, 26, 0, 0, 0, 0, 0, 0, 0, 'C', 'a', 'n', 'o', 'n', 0}
+		exifItem := append([]byte{0, 0, 0, 6, 'E', 'x', 'i', 'f', 0, 0}, tiffB...)
+		ftypAvif := box("ftyp", []byte("avif\x00\x00\x00\x00avifmif1miaf"))
+		hdlr := box("hdlr", append(append(make([]byte, 8), []byte("pict")...), make([]byte, 13)...))
+		infe := box("infe", append([]byte{2, 0, 0, 0, 0, 1, 0, 0}, []byte("Exif\x00")...))
+		iinf := box("iinf", append([]byte{0, 0, 0, 0, 0, 1}, infe...))
+		for v, bad := range [][]byte{
+			append(append(binary.BigEndian.AppendUint32(nil, 0x10000), []byte("iref\x00\x00\x00\x00")...), append(binary.BigEndian.AppendUint32(nil, 0x8000), []byte("cdsc")...)...),
+			append(binary.BigEndian.AppendUint32(nil, 0x8000), []byte("free")...),
+		} {
+			mkIloc := func(off uint32) []byte {
+				return box("iloc", append([]byte{0, 0, 0, 0, 0x44, 0, 0, 1, 0, 1, 0, 0, 0, 1}, append(binary.BigEndian.AppendUint32(nil, off), binary.BigEndian.AppendUint32(nil, uint32(len(exifItem)+16))...)...))
+			}
+			metaLen := 8 + 4 + len(hdlr) + len(iinf) + len(bad) + len(mkIloc(0))
+			off := uint32(len(ftypAvif) + metaLen + 8 + 8)
+			body := append([]byte{0, 0, 0, 0}, hdlr...)
+			body = append(append(append(body, iinf...), bad...), mkIloc(off)...)
+			f := append(append([]byte{}, ftypAvif...), box("meta", body)...)
+			f = append(f, box("mdat", append(append(make([]byte, 8), exifItem...), make([]byte, 16)...))...)
+			add(fmt.Sprintf("bmff-unclosable-inner-box-then-iloc-%d", v+1), f)
+		}
+		cmt1 := box("CMT1", tiffB)
+		moov := box("moov", append(append(binary.BigEndian.AppendUint32(nil, 0x8000), []byte("free")...), box("uuid", append(append([]byte{}, cr3uuid...), cmt1...))...))
+		add("bmff-unclosable-inner-box-then-uuid", append(append(append([]byte{}, ftypCrx...), moov...), box("free", make([]byte, 32))...))
+	}
+	{
 		// a 64-bit-size box whose header starts 8 bytes before the end of the read window
 		pad := 4088 - len(ftypCrx) - 8
 		f := append(append([]byte{}, ftypCrx...), box("free", make([]byte, pad))...)
